@@ -65,7 +65,10 @@ func baseArgs(self uint32) blproc.ArgBaseProcessor {
 	boot := &mock.BootstrapComponentsMock{Coordinator: coord, HdrIntegrityVerifier: &mock.HeaderIntegrityVerifierStub{}}
 	stat := &mock.StatusComponentsMock{Indexer: &mock.IndexerMock{}, TPSBenchmark: &testscommon.TpsBenchmarkMock{}}
 	hv, _ := blproc.NewHeaderValidator(blproc.ArgsHeaderValidator{Hasher: hsh, Marshalizer: msh})
-	start := map[uint32]data.HeaderHandler{0: &block.Header{ShardID: 0}, 1: &block.Header{ShardID: 1}, 2: &block.Header{ShardID: 2}, core.MetachainShardId: &block.MetaBlock{}}
+	zero := func() *big.Int { return big.NewInt(0) }
+	// genesis headers (the first metablock a processor creates lists the genesis shard headers, fees included)
+	start := map[uint32]data.HeaderHandler{0: &block.Header{ShardID: 0, AccumulatedFees: zero(), DeveloperFees: zero()}, 1: &block.Header{ShardID: 1, AccumulatedFees: zero(), DeveloperFees: zero()},
+		2: &block.Header{ShardID: 2, AccumulatedFees: zero(), DeveloperFees: zero()}, core.MetachainShardId: &block.MetaBlock{}}
 	stub := func() *testscommon.AccountsStub {
 		return &testscommon.AccountsStub{JournalLenCalled: func() int { return 0 }, RevertToSnapshotCalled: func(int) error { return nil },
 			RootHashCalled: func() ([]byte, error) { return []byte("rootHash"), nil }, CommitCalled: func() ([]byte, error) { return nil, nil }}
@@ -316,6 +319,7 @@ func main() {
 		"an error other than ErrHeaderBodyMismatch/ErrNilMiniBlock after the correlation step counts as 'passed the correlation check' (later steps such as the cross-shard miniblock verification may still reject a header whose entries name other shards)",
 		"base universe: a matching pair must return nil; extended universes (foreign senders): only the correlation verdict is judged",
 		"miniblock hashes are collision free, so a body miniblock has exactly one admissible (sender, receiver, type, tx count)")
+	r.Rule("created phase: 32 (thorough 128) long-lived shard / meta processors; per round the processor's own CreateBlock builds the header from a body of the base universe (miniblock objects handed over by the transaction coordinator, real createMiniBlockHeaders), then one or two steps of (operation on the returned body OBJECTS: none, re-order, re-allocate an equal copy, replace / overwrite / swap / re-order / add / remove a tx hash in place, change type / receiver / sender in place, drop a miniblock, list an object twice; then ProcessBlock of the same objects with the header built at the start of the round). Reference = bijection on the content at the time of the call, hashes recomputed by the harness.")
 	r.MinShapes(40)
 
 	type procKind struct {
@@ -393,7 +397,18 @@ func main() {
 	}
 	haveTime := func() time.Duration { return time.Second }
 
-	r.Parallel(len(jobs), func(c *vk.Case) {
+	// created phase (created.go): long-lived processors that build the header themselves
+	nCreated := r.N(32, 128)
+	createdRounds := r.N(150, 600)
+	r.Parallel(len(jobs)+nCreated, func(c *vk.Case) {
+		if c.Idx >= len(jobs) {
+			if (c.Idx-len(jobs))%2 == 0 {
+				createdJob(r, c, 0, "shard", createdRounds)
+			} else {
+				createdJob(r, c, core.MetachainShardId, "meta", createdRounds)
+			}
+			return
+		}
 		j := jobs[c.Idx]
 		p := j.p
 		proc, err := p.kind.mk()
